@@ -14,8 +14,8 @@
    (o_gcn).  The harness reads them off the real pool; the theorems quantify over all values.
 
    Not modelled: logging, snapshots/stats callback, Pool.prune_all_connections (HA failover:
-   closes lent connections on purpose; outside the property), cancellation of acquire() by its
-   caller, _NaivePool, pool2. *)
+   closes lent connections on purpose; outside the property), cancellation of a prune task,
+   _NaivePool, pool2.  Cancellation of acquire() by its caller IS modelled (event ECancel). *)
 From Coq Require Import List ZArith NArith Bool Lia.
 Import ListNotations.
 Open Scope Z_scope.
@@ -28,7 +28,8 @@ Notation bid := (N * N)%type (only parsing).   (* identity of a Block object: (d
 (* the coroutine frame of a task suspended on a waiter future of a block *)
 Inductive wk :=
  | WAcq                              (* Pool.acquire -> Block.acquire -> try_acquire *)
- | WPrune (acc : list conn).         (* prune_inactive_connections: local list `conns` so far *)
+ | WPrune (acc : list conn)          (* prune_inactive_connections: local list `conns` so far *)
+ | WDone.                            (* the future of a cancelled acquire(): done, still in the deque *)
 
 Record blk := mkBlk {
   b_id : bid;                       (* identity of the Block object; fst = Block.dbname *)
@@ -76,7 +77,9 @@ Inductive kont :=
  | KPruneStart (t : tid) (d : db)
  | KPruneWake (t : tid) (b : bid) (acc : list conn) (ok : bool)
  | KGatherCb (t : tid)                                (* asyncio.gather's _done_callback *)
- | KPruneFin (t : tid).                               (* prune task resumes after gather *)
+ | KPruneFin (t : tid)                                (* prune task resumes after gather *)
+ | KAcqDead (t : tid)                                 (* first step of an acquire task cancelled before it started *)
+ | KAcqWakeC (t : tid) (b : bid).                     (* the acquire task resumes with CancelledError *)
 
 (* float / clock dependent decisions, read off the real pool by the harness *)
 Record oracle := mkOracle {
@@ -93,6 +96,7 @@ Inductive out :=
  | OAcquired (t : tid) (c : conn)       (* acquire() of task t returned c *)
  | OAcqFailed (t : tid)                 (* acquire() of task t raised the connect error *)
  | OReleaseErr (k : N)                  (* release() raised: 1 unknown db, 2 foreign connection, 3 not in use *)
+ | OAcqCancelled (t : tid)              (* acquire() of task t ended with CancelledError *)
  | OPruneDone (t : tid) | OPruneFailed (t : tid)
  | OTickCrash.                          (* an assertion inside _tick failed *)
 
@@ -224,20 +228,28 @@ Definition wake_kont (i : bid) (w : tid * wk) (ok : bool) : kont :=
   match snd w with
   | WAcq => KAcqWake (fst w) i ok
   | WPrune acc => KPruneWake (fst w) i acc ok
+  | WDone => KAcqDead (fst w)            (* never used: done futures are skipped *)
+  end.
+Definition is_done (w : tid * wk) : bool := match snd w with WDone => true | _ => false end.
+(* `while self.conn_waiters: waiter = popleft(); if not waiter.done(): ...; break` *)
+Fixpoint drop_done (ws : list (tid * wk)) : list (tid * wk) :=
+  match ws with
+  | [] => []
+  | w :: r => if is_done w then drop_done r else ws
   end.
 
-(* Block._wakeup_next_waiter (every queued future is pending: callers never cancel) *)
+(* Block._wakeup_next_waiter: cancelled (done) futures are popped and skipped *)
 Definition wakeup_next (i : bid) (s : pool) : pool :=
   let b := get_blk i s in
-  match b.(b_waiters) with
-  | [] => s
+  match drop_done b.(b_waiters) with
+  | [] => upd (set_b_waiters [] b) s
   | w :: ws => push (wake_kont i w true) (upd (set_b_waiters ws b) s)
   end.
 
-(* Block.abort_waiters *)
+(* Block.abort_waiters: every queued future is popped; the pending ones get the exception *)
 Definition abort_waiters (i : bid) (s : pool) : pool :=
   let b := get_blk i s in
-  set_ready (s.(ready) ++ map (fun w => wake_kont i w false) b.(b_waiters))
+  set_ready (s.(ready) ++ map (fun w => wake_kont i w false) (filter (fun w => negb (is_done w)) b.(b_waiters)))
     (upd (set_b_waiters [] b) s).
 
 (* Block.release *)
@@ -490,6 +502,56 @@ Definition acquire_wake (t : tid) (i : bid) (ok : bool) (s : pool) : pool :=
     let s2 := match b.(b_stack) with [] => s | _ :: _ => wakeup_next i s end in
     let b2 := get_blk i s2 in
     emit (OAcqFailed t) (set_nacq (s2.(nacq) - 1) (upd (set_b_nwait (b2.(b_nwait) - 1) b2) s2)).
+
+(* the acquire task resumes with CancelledError (thrown at `await waiter`): `except Exception`
+   does not catch it; only the finally clauses of try_acquire and Pool.acquire run *)
+Definition acquire_cancelled (t : tid) (i : bid) (s : pool) : pool :=
+  let b := get_blk i s in
+  emit (OAcqCancelled t) (set_nacq (s.(nacq) - 1) (upd (set_b_nwait (b.(b_nwait) - 1) b) s)).
+
+(* Task.cancel() on an acquire() task that has not returned yet *)
+Definition kont_task (k : kont) : option tid :=
+  match k with KAcqStart t _ => Some t | KAcqWake t _ _ => Some t | _ => None end.
+Definition is_task (t : tid) (k : kont) : bool :=
+  match kont_task k with Some t' => (t' =? t)%N | None => false end.
+Definition cancel_kont (t : tid) (k : kont) : kont :=
+  match k with
+  | KAcqStart t' _ => if (t' =? t)%N then KAcqDead t else k          (* _must_cancel: throws at the first step *)
+  | KAcqWake t' i _ => if (t' =? t)%N then KAcqWakeC t i else k      (* waiter already done: _must_cancel *)
+  | _ => k
+  end.
+(* a cancel that hits a task whose waiter has already been woken successfully *)
+Definition late_ok (t : tid) (k : kont) : bool :=
+  match k with KAcqWake t' _ true => (t' =? t)%N | _ => false end.
+Definition late_cancel (s : pool) (e_t : tid) : bool := existsb (late_ok e_t) s.(ready).
+Fixpoint has_wacq (t : tid) (ws : list (tid * wk)) : bool :=
+  match ws with
+  | [] => false
+  | (t', WAcq) :: r => if (t' =? t)%N then true else has_wacq t r
+  | _ :: r => has_wacq t r
+  end.
+Fixpoint mark_done (t : tid) (ws : list (tid * wk)) : list (tid * wk) :=
+  match ws with
+  | [] => []
+  | (t', WAcq) :: r => if (t' =? t)%N then (t', WDone) :: r else (t', WAcq) :: mark_done t r
+  | w :: r => w :: mark_done t r
+  end.
+Fixpoint find_waiting (t : tid) (bs : list blk) : option blk :=
+  match bs with
+  | [] => None
+  | b :: r => if has_wacq t b.(b_waiters) then Some b else find_waiting t r
+  end.
+Definition cancel (t : tid) (s : pool) : option pool :=
+  if existsb (is_task t) s.(ready) then
+    (* not started yet, or its waiter future is already done: the pending callback will throw *)
+    Some (set_ready (map (cancel_kont t) s.(ready)) s)
+  else
+    match find_waiting t s.(blocks) with
+    | Some b =>
+        (* waiter.cancel(): the future stays in the deque, its callback (the task wake-up) is scheduled *)
+        Some (push (KAcqWakeC t b.(b_id)) (upd (set_b_waiters (mark_done t b.(b_waiters)) b) s))
+    | None => None
+    end.
 
 (* ------------------------------------------------------------------ connect / disconnect *)
 (* the part of BasePool._connect up to `await self._connect_cb(block.dbname)` *)
@@ -752,6 +814,8 @@ Definition run_kont (o : oracle) (k : kont) (s : pool) : pool :=
   | KPruneWake t i acc ok => prune_wake t i acc ok s
   | KGatherCb t => gather_cb t s
   | KPruneFin t => emit (OPruneDone t) s
+  | KAcqDead t => emit (OAcqCancelled t) s     (* CancelledError thrown into the unstarted coroutine *)
+  | KAcqWakeC t i => acquire_cancelled t i s
   end.
 
 (* ------------------------------------------------------------------ external events *)
@@ -763,6 +827,7 @@ Inductive event :=
  | EConnFail (cid : N) (nodb : bool)      (* ... failed (nodb: error 3D000) *)
  | EDiscOk (did : N) | EDiscFail (did : N)
  | ETick | EGc                            (* the timer fires *)
+ | ECancel (t : tid)                      (* the caller cancels a pending acquire(): Task.cancel() *)
  | ERun.                                  (* the loop runs the first callback of its ready queue *)
 
 Definition step (s : pool) (e : event) (o : oracle) : option pool :=
@@ -801,6 +866,7 @@ Definition step (s : pool) (e : event) (o : oracle) : option pool :=
       end
   | ETick => if s.(tick_armed) then Some (tick o s) else None
   | EGc => if 0 <? s.(gc_timers) then Some (run_gc o s) else None
+  | ECancel t => cancel t s
   | ERun => match s.(ready) with
             | [] => None
             | k :: r => Some (run_kont o k (set_ready r s))
